@@ -1,5 +1,245 @@
 /-
-C06 — property theorems (stub; nothing proved yet).
+C06 — integrators reach their nominal order, also for time-dependent problems.
+
+The theorems are about `KawinV.Gen.C06.rk4` / `euler`: the Butcher tableaux that
+tools/corr/C06.py reads off the real kawin/solver/Iterators.py on every run (symbolic execution
+through DESolver._getdXdt / _updateX).  A change of a stage time, a stage coefficient or a weight
+in the code changes the generated data and these proofs stop checking.
+
+`rkStep T f t x dt` is the general explicit Runge-Kutta step of KawinV.Solver; `rk4Iter` /
+`eulerIter` are the hand model of the iterator code (operation order kept), shown here to be that
+general step with the generated tableau for EVERY right-hand side `f`.
+
+That the order conditions imply the order of accuracy (Butcher) is cited, not formalised.
 -/
+import KawinV.Model.Solver
+import KawinV.Gen.C06Tableau
+import Mathlib.Tactic.Ring
+import Mathlib.Tactic.NormNum
+import Mathlib.Tactic.FieldSimp
+import Mathlib.Tactic.Linarith
+import Mathlib.Algebra.Order.Field.Basic
+import Mathlib.Data.Rat.Cast.CharZero
+
+set_option linter.unusedSectionVars false
+set_option linter.unusedVariables false
+set_option linter.unusedSimpArgs false
+
 namespace KawinV.Props.C06
+open KawinV.Solver KawinV.Gen.C06
+
+/-! ### the tableau as data (ℚ) -/
+
+/-- (A v)_i = Σ_j a_ij v_j -/
+def Amul (T : Tableau ℚ) (v : List ℚ) : List ℚ := T.A.map (fun r => dotL r v)
+/-- componentwise product -/
+def had (u v : List ℚ) : List ℚ := List.zipWith (· * ·) u v
+def ones (T : Tableau ℚ) : List ℚ := T.c.map (fun _ => 1)
+
+/-- the eight order conditions of Butcher for order 4 (one per rooted tree with ≤ 4 vertices) -/
+structure OrderConditions4 (T : Tableau ℚ) : Prop where
+  t1    : dotL T.b (ones T) = 1                          -- •
+  t2    : dotL T.b T.c = 1/2                             -- [•]
+  t3a   : dotL T.b (had T.c T.c) = 1/3                   -- [•,•]
+  t3b   : dotL T.b (Amul T T.c) = 1/6                    -- [[•]]
+  t4a   : dotL T.b (had T.c (had T.c T.c)) = 1/4         -- [•,•,•]
+  t4b   : dotL T.b (had T.c (Amul T T.c)) = 1/8          -- [•,[•]]
+  t4c   : dotL T.b (Amul T (had T.c T.c)) = 1/12         -- [[•,•]]
+  t4d   : dotL T.b (Amul T (Amul T T.c)) = 1/24          -- [[[•]]]
+
+/-- **stage times**: the RK4 iterator evaluates the right-hand side at t, t+dt/2, t+dt/2, t+dt —
+what its documentation states. -/
+theorem rk4_stage_times : rk4.c = [0, 1/2, 1/2, 1] := by decide +kernel
+
+/-- the method is explicit with four stages: row i of A has i entries -/
+theorem rk4_explicit : rk4.A.map List.length = [0, 1, 2, 3] ∧ rk4.b.length = 4 ∧ rk4.c.length = 4 := by
+  decide +kernel
+
+/-- **row sums**: c_i = Σ_j a_ij (each stage state is consistent with its stage time) -/
+theorem rk4_row_sums : Amul rk4 (ones rk4) = rk4.c := by decide +kernel
+
+/-- the classical weights -/
+theorem rk4_weights : rk4.b = [1/6, 1/3, 1/3, 1/6] := by decide +kernel
+
+/-- **order conditions**: all 8 conditions up to order 4 hold for the tableau the code implements -/
+theorem rk4_order_conditions : OrderConditions4 rk4 := by
+  constructor <;> decide +kernel
+
+/-- … and the order is not higher: the bushy-tree condition of order 5 fails -/
+theorem rk4_not_order5 : dotL rk4.b (had rk4.c (had rk4.c (had rk4.c rk4.c))) ≠ 1/5 := by
+  decide +kernel
+
+/-- Euler: one stage at time t, weight 1; consistent (order 1) … -/
+theorem euler_tableau : euler.c = [0] ∧ euler.A = [[]] ∧ euler.b = [1] := by decide +kernel
+
+theorem euler_order1 : dotL euler.b (ones euler) = 1 := by decide +kernel
+
+/-- … and not of order 2 -/
+theorem euler_not_order2 : dotL euler.b euler.c ≠ 1/2 := by decide +kernel
+
+theorem euler_row_sums : Amul euler (ones euler) = euler.c := by decide +kernel
+
+/-! ### what one step computes, over any ordered field -/
+
+variable {α : Type} [Field α] [LinearOrder α] [IsStrictOrderedRing α]
+
+/-- the generated tableau with its entries read in the field α -/
+def rk4T : Tableau α := rk4.map (fun q => (q : α))
+def eulerT : Tableau α := euler.map (fun q => (q : α))
+
+theorem rk4T_eq : (rk4T : Tableau α) =
+    { c := [0, 1/2, 1/2, 1], A := [[], [1/2], [0, 1/2], [0, 0, 1]], b := [1/6, 1/3, 1/3, 1/6] } := by
+  simp [rk4T, rk4, Tableau.map]
+
+theorem eulerT_eq : (eulerT : Tableau α) = { c := [0], A := [[]], b := [1] } := by
+  simp [eulerT, euler, Tableau.map]
+
+/-- times at which a step from t with size dt calls the right-hand side -/
+theorem rk4_stage_times_field (t dt : α) :
+    stageTimes (rk4T : Tableau α) t dt = [t, t + dt / 2, t + dt / 2, t + dt] := by
+  simp [stageTimes, rk4T_eq]
+  refine ⟨?_, ?_⟩ <;> ring
+
+/-- **the iterator code is the Runge-Kutta step of the generated tableau**, for every right-hand
+side f (time-dependent or not), every t, x, dt. -/
+theorem rk4Iter_eq_rkStep (f : α → α → α) (dt t x : α) :
+    (rk4Iter scalarOps f dt t x).xnew = rkStep rk4T f t x dt := by
+  have e0 : t + 0 * dt = t := by ring
+  have e1 : t + 1 / 2 * dt = t + dt / 2 := by ring
+  have e2 : t + 1 * dt = t + dt := by ring
+  have s1 : x + dt * (1 / 2 * f t x + 0) = x + dt / 2 * f t x := by ring
+  simp only [rk4Iter, rkStep, rk4T_eq, rkStages, dotL, updateX, scalarOps, List.nil_append,
+    List.cons_append, e0, e1, e2, mul_zero, add_zero, s1]
+  generalize f t x = k1
+  have s2 : ∀ k2 : α, x + dt * (0 * k1 + (1 / 2 * k2 + 0)) = x + dt / 2 * k2 := by intro k2; ring
+  simp only [s2]
+  generalize f (t + dt / 2) (x + dt / 2 * k1) = k2
+  have s3 : ∀ k3 : α, x + dt * (0 * k1 + (0 * k2 + (1 * k3 + 0))) = x + dt * k3 := by intro k3; ring
+  simp only [s3]
+  generalize f (t + dt / 2) (x + dt / 2 * k2) = k3
+  generalize f (t + dt) (x + dt * k3) = k4
+  ring
+
+theorem eulerIter_eq_rkStep (f : α → α → α) (dt t x : α) :
+    (eulerIter scalarOps f dt t x).xnew = rkStep eulerT f t x dt := by
+  have e0 : t + 0 * dt = t := by ring
+  simp only [eulerIter, rkStep, eulerT_eq, rkStages, dotL, updateX, scalarOps, List.nil_append, e0,
+    mul_zero, add_zero]
+  ring
+
+/-- the iterator calls the right-hand side exactly at the documented times, whatever the state
+type and the operations on it -/
+theorem rk4Iter_call_times {V : Type} (o : VecOps α V) (f : α → V → V) (dt t : α) (x : V) :
+    (rk4Iter o f dt t x).calls.map Prod.fst = [t, t + dt / 2, t + dt / 2, t + dt] := rfl
+
+theorem eulerIter_call_times {V : Type} (o : VecOps α V) (f : α → V → V) (dt t : α) (x : V) :
+    (eulerIter o f dt t x).calls.map Prod.fst = [t] := rfl
+
+/-- first call is at the given state; **the vector given to the iterator is handed back
+untouched** (in the model this is purity; on NumPy arrays the correspondence check and the direct
+oracle compare the array before and after, also for right-hand sides returning their argument) -/
+theorem rk4Iter_input_untouched {V : Type} (o : VecOps α V) (f : α → V → V) (dt t : α) (x : V) :
+    (rk4Iter o f dt t x).xold = x ∧ (rk4Iter o f dt t x).calls.head? = some (t, x) := ⟨rfl, rfl⟩
+
+theorem eulerIter_input_untouched {V : Type} (o : VecOps α V) (f : α → V → V) (dt t : α) (x : V) :
+    (eulerIter o f dt t x).xold = x ∧ (eulerIter o f dt t x).calls.head? = some (t, x) := ⟨rfl, rfl⟩
+
+/-! ### exactness on polynomials in t -/
+
+/-- unfolded RK4 step for a right-hand side that depends on time only -/
+theorem rk4_quadrature (g : α → α) (t y dt : α) :
+    rkStep rk4T (fun s _ => g s) t y dt
+      = y + dt * (g t + 4 * g (t + dt / 2) + g (t + dt)) / 6 := by
+  have e0 : t + 0 * dt = t := by ring
+  have e1 : t + 1 / 2 * dt = t + dt / 2 := by ring
+  have e2 : t + 1 * dt = t + dt := by ring
+  simp only [rkStep, rk4T_eq, rkStages, dotL, List.nil_append, List.cons_append, e0, e1, e2]
+  ring
+
+/-- **y' = const** is integrated exactly -/
+theorem rk4_exact_deg0 (c t y dt : α) : rkStep rk4T (fun _ _ => c) t y dt = y + c * dt := by
+  rw [rk4_quadrature (fun _ => c)]; ring
+
+/-- **y' = t** is integrated exactly: y + ((t+dt)² − t²)/2 -/
+theorem rk4_exact_deg1 (t y dt : α) :
+    rkStep rk4T (fun s _ => s) t y dt = y + ((t + dt) ^ 2 - t ^ 2) / 2 := by
+  rw [rk4_quadrature (fun s => s)]; ring
+
+/-- **y' = t²** is integrated exactly -/
+theorem rk4_exact_deg2 (t y dt : α) :
+    rkStep rk4T (fun s _ => s ^ 2) t y dt = y + ((t + dt) ^ 3 - t ^ 3) / 3 := by
+  rw [rk4_quadrature (fun s => s ^ 2)]; ring
+
+/-- **y' = t³** is integrated exactly -/
+theorem rk4_exact_deg3 (t y dt : α) :
+    rkStep rk4T (fun s _ => s ^ 3) t y dt = y + ((t + dt) ^ 4 - t ^ 4) / 4 := by
+  rw [rk4_quadrature (fun s => s ^ 3)]; ring
+
+/-- **y' = t⁴**: the error of one step is exactly dt⁵/120 — order 4, not more -/
+theorem rk4_error_deg4 (t y dt : α) :
+    rkStep rk4T (fun s _ => s ^ 4) t y dt - (y + ((t + dt) ^ 5 - t ^ 5) / 5) = dt ^ 5 / 120 := by
+  rw [rk4_quadrature (fun s => s ^ 4)]; ring
+
+/-- the witness of the defect that was repaired (all stages at time t gave 1.5): y' = 2t, y(0) = 1,
+two steps of 1/2 arrive at exactly 2 = 1 + 1² -/
+theorem rk4_two_steps_2t :
+    rkStep rk4T (fun s _ => 2 * s) (1 / 2) (rkStep rk4T (fun s _ => 2 * s) 0 (1 : α) (1 / 2)) (1 / 2) = 2 := by
+  rw [rk4_quadrature (fun s => 2 * s), rk4_quadrature (fun s => 2 * s)]; norm_num
+
+/-- Euler integrates constants exactly and has error exactly −dt²/2 on y' = t (order 1, not more) -/
+theorem euler_exact_deg0 (c t y dt : α) : rkStep eulerT (fun _ _ => c) t y dt = y + c * dt := by
+  simp only [rkStep, eulerT_eq, rkStages, dotL, List.nil_append]; ring
+
+theorem euler_error_deg1 (t y dt : α) :
+    rkStep eulerT (fun s _ => s) t y dt - (y + ((t + dt) ^ 2 - t ^ 2) / 2) = - dt ^ 2 / 2 := by
+  simp only [rkStep, eulerT_eq, rkStages, dotL, List.nil_append]; ring
+
+/-! ### linear test equation and a right-hand side depending on both t and y -/
+
+/-- **y' = λy**: one RK4 step multiplies by the degree-4 Taylor polynomial of exp at z = λ·dt -/
+theorem rk4_linear_test (lam t y dt : α) :
+    rkStep rk4T (fun _ u => lam * u) t y dt
+      = (1 + lam * dt + (lam * dt) ^ 2 / 2 + (lam * dt) ^ 3 / 6 + (lam * dt) ^ 4 / 24) * y := by
+  simp only [rkStep, rk4T_eq, rkStages, dotL, List.nil_append, List.cons_append]
+  ring
+
+theorem euler_linear_test (lam t y dt : α) :
+    rkStep eulerT (fun _ u => lam * u) t y dt = (1 + lam * dt) * y := by
+  simp only [rkStep, eulerT_eq, rkStages, dotL, List.nil_append]; ring
+
+/-- **y' = t·y** from t = 0 (solution y·exp(dt²/2) = y·(1 + dt²/2 + dt⁴/8 + dt⁶/48 + …)): the
+step reproduces the series through the dt⁴ term (in fact through dt⁶).  With all stages evaluated
+at time t = 0 every stage derivative would be 0 and the step would return y. -/
+theorem rk4_time_dependent_ty (y dt : α) :
+    rkStep rk4T (fun s u => s * u) 0 y dt = y * (1 + dt ^ 2 / 2 + dt ^ 4 / 8 + dt ^ 6 / 48) := by
+  simp only [rkStep, rk4T_eq, rkStages, dotL, List.nil_append, List.cons_append]
+  ring
+
+/-- general non-autonomous linear problem y' = a·t·y + b·t + c·y + d: the one-step result agrees
+with the Taylor expansion of the exact solution at (t, y) = (0, y) through order dt⁴; stated as:
+the RK4 result minus the degree-4 Taylor polynomial is divisible by dt⁵.  Taylor coefficients of
+the solution of y' = (a t + c) y + b t + d at t = 0:
+  y1 = c y + d,  y2 = a y + c y1 + b,  y3 = 2 a y1 + c y2,  y4 = 3 a y2 + c y3. -/
+theorem rk4_local_error_affine (a b c d y dt : α) :
+    ∃ r : α, rkStep rk4T (fun s u => a * s * u + b * s + c * u + d) 0 y dt
+      - (y + (c * y + d) * dt
+           + (a * y + c * (c * y + d) + b) * dt ^ 2 / 2
+           + (2 * a * (c * y + d) + c * (a * y + c * (c * y + d) + b)) * dt ^ 3 / 6
+           + (3 * a * (a * y + c * (c * y + d) + b)
+                + c * (2 * a * (c * y + d) + c * (a * y + c * (c * y + d) + b))) * dt ^ 4 / 24)
+      = dt ^ 5 * r := by
+  simp only [rkStep, rk4T_eq, rkStages, dotL, List.nil_append, List.cons_append]
+  refine ⟨(1 / 96) * a ^ 3 * c * dt ^ 2 * y + (1 / 96) * a ^ 3 * d * dt ^ 2 + (1 / 48) * a ^ 3 * dt * y
+    + (1 / 48) * a ^ 2 * b * dt + (5 / 96) * a ^ 2 * c ^ 2 * dt * y + (5 / 96) * a ^ 2 * c * d * dt
+    + (1 / 8) * a ^ 2 * c * y + (1 / 16) * a ^ 2 * d + (1 / 16) * a * b * c + (1 / 12) * a * c ^ 3 * y
+    + (1 / 12) * a * c ^ 2 * d, ?_⟩
+  ring
+
+/-! ### non-vacuity / concrete values -/
+
+example : rkStep (rk4T : Tableau ℚ) (fun s _ => 2 * s) 0 1 (1 / 2) = 5 / 4 := by
+  rw [rk4_quadrature (fun s => 2 * s)]; norm_num
+example : rkStep (eulerT : Tableau ℚ) (fun _ u => u) 0 1 (1 / 2) = 3 / 2 := by
+  rw [euler_linear_test (1 : ℚ)]; norm_num
+
 end KawinV.Props.C06
